@@ -38,6 +38,9 @@ func (p *Property) evidencePath() string {
 	return filepath.Join(verifDir, "evidence", p.ID+".json")
 }
 
+// packages that receive overlay-only export shims of private constructors
+var exportDirs = []string{"internal/handler/decision", "internal/handler/proxy", "internal/handler/envoyextauth/grpcv3", "internal/handler/management", "internal/keyholder", "internal/rules"}
+
 var properties = map[string]*Property{
 	"C06": {
 		ID: "C06",
@@ -74,5 +77,25 @@ var properties = map[string]*Property{
 			"interleavings are explored at lock operations and inserted yield points; preemption between two plain memory accesses is covered by the happens-before race detector, not by schedule exploration",
 			"porcupine timeouts (30 s) are counted as inconclusive, never reported",
 		},
+	},
+	"C10": {
+		ID: "C10",
+		Harnesses: []Harness{{
+			Name: "time-sim", Property: "C10", Pkg: "./internal/verifsim/timesim", Test: "TestVerifC10",
+			Dirs:  append([]string{"internal/verifsim/timesim"}, exportDirs...),
+			Files: []string{"zz_verif_env_test.go", "zz_verif_crypto_test.go", "zz_verif_c10_test.go"},
+			CPU1:  true,
+			Quick:    Tier{Runs: 6000, BudgetS: 120},
+			Thorough: Tier{Runs: 300000, BudgetS: 1500},
+		}},
+		Rule: "one case = one seeded (mechanism, cache kind, cache_ttl, credential/response lifetime, leeway, http_cache, fault plan) configuration of the real decision service inside a fake-clock bubble plus a request history of 3-12 identical requests at instants biased to the validity boundaries (clock jumps included). Non-trivial = at least one request was accepted from a cache within a few seconds of a validity bound; distinct = distinct (configuration, trace).",
+		Real: []string{"config loader", "mechanism catalogue", "oauth2_introspection / generic / jwt authenticators", "remote authorizer", "generic contextualizer", "jwt and oauth2_client_credentials finalizers", "httpcache.RoundTripper", "memory.Cache (ttlcache incl. expiry goroutine)", "rule factory, repository, executor", "decision handler chain incl. cache middleware"},
+		Stub: []string{"remote parties (simnet handlers stamping simulator-chosen lifetimes)", "Redis: semantics stub (SET PX rejects ttl<=0, exact expiry); rueidis client not executed", "wall clock -> synctest fake clock"},
+		Assumptions: []string{
+			"validity_leeway is always configured explicitly and non-zero, so no implementation constant is mirrored",
+			"not judged: how much earlier than a bound heimdall stops reusing; behaviour for responses without explicit freshness information beyond the default_ttl bound; whether a request fails when a refresh hits a fault; a mechanism's built-in default ttl when cache_ttl is unset",
+			"request instants are whole seconds + 500 ms so no comparison is ever on an equality boundary",
+		},
+		MustBePositive: []string{"time-sim/accepted-from-cache", "time-sim/accepted:introspection", "time-sim/accepted:generic-authn", "time-sim/accepted:remote-authorizer", "time-sim/accepted:contextualizer", "time-sim/accepted:jwks-cert", "time-sim/accepted:jwt-finalizer", "time-sim/accepted:client-credentials"},
 	},
 }
